@@ -18,7 +18,7 @@ while a:
     else:
         ids.append(x)
 root = "/verif/seeded"
-allids = sorted(d for d in os.listdir(root) if os.path.isdir(os.path.join(root, d)))
+allids = sorted(d for d in os.listdir(root) if os.path.isdir(os.path.join(root, d)) and not json.load(open(os.path.join(root, d, "meta.json"))).get("obsolete_after"))
 ids = ids or allids
 
 
@@ -45,8 +45,8 @@ for i, rows, err in res:
         missed.append(i)
     for c, rc, nk, keys in rows:
         lines.append("| %s | %s | %d | %d | %s |" % (i, c, rc, nk, keys.replace("|", "/")))
-        if rc != 1:
-            missed.append(i + ":" + c)
+    if rows and not any(rc == 1 for c, rc, nk, keys in rows):
+        missed.append(i)
 lines += ["", "not detected: %s" % (missed or "none")]
 if ids == allids:
     open(os.path.join(root, "RESULTS.md"), "w").write("\n".join(lines) + "\n")
